@@ -243,6 +243,51 @@ Section Fmt.
     | COpt x => match apply_mapping x r with MOk v => MOk v | MErr _ => MOk JNull end
     end.
 
+  (* SPECIFICATION of the value a mapping selects (what the property text and the documentation
+     of the CSV mapping say, independent of how csv_mapping.rs walks): a path is a dot-separated
+     list of OBJECT KEYS taken literally - '/' and '~' are ordinary key characters, a numeric
+     segment is a key and never an array index, an empty segment is the empty key; Sum adds its
+     parts as f64 in order starting from -0.0, null counting 0, and fails when a part fails or is
+     not a number; a non-finite sum is null; Optional turns a failure into null.  None = the cell
+     fails: empty field, and the column is reported in the response's error entry. *)
+  Fixpoint spec_lookup (cur : json) (path : list string) : option json :=
+    match path with
+    | [] => Some cur
+    | k :: rest => match cur with
+                   | JObj m => match oget m k with Some c => spec_lookup c rest | None => None end
+                   | _ => None
+                   end
+    end.
+  Definition spec_num (v : json) : option float :=
+    match v with
+    | JNull => Some (f_zero fo)
+    | JInt z => Some (f_of_Z fo z)
+    | JFloat f => Some f
+    | _ => None
+    end.
+  Fixpoint all_some {A} (l : list (option A)) : option (list A) :=
+    match l with
+    | [] => Some []
+    | Some a :: r => match all_some r with Some t => Some (a :: t) | None => None end
+    | None :: _ => None
+    end.
+  Fixpoint spec_value (m : cmap) (r : json) : option json :=
+    match m with
+    | CPath p => spec_lookup r (split_on "."%char p)
+    | CSum l =>
+        match all_some (map (fun x => spec_value x r) l) with
+        | Some vs => match all_some (map spec_num vs) with
+                     | Some ns => Some (json_of_f64 (f_sum ns))
+                     | None => None
+                     end
+        | None => None
+        end
+    | COpt x => Some (match spec_value x r with Some v => v | None => JNull end)
+    end.
+  Definition spec_cell (m : cmap) (r : json) : string :=
+    match spec_value m r with Some (JStr s) => s | Some v => to_string v | None => "" end.
+  Definition to_opt (x : mres) : option json := match x with MOk v => Some v | MErr _ => None end.
+
   (* ---------- response_output_format.rs ---------- *)
   (* the mapping is the OrderedHashMap in ITERATION order (= insertion order; a key inserted
      again moves to the end with the new value: ordered_hash_map 0.4 `insert`) *)
